@@ -207,6 +207,37 @@ for fam in FAMILIES:
     check_prior_pair(fam)
 
 
+# a parameter carrying the 'positive' flag FOLLOWED by an unflagged one: the flag is a per-parameter property, a negative value of the
+# unflagged (gaussian) parameter is inside its support and must not be rejected
+@fuc('pid_interfaces', 'PIDInterface.check_prior', props=['C16', 'C15'], variant='flagged-then-unflagged')
+def _(c):
+    gpar, gpre, gsup, gden = FAMILIES['gamma'][:4]
+    npar, npre, nsup, nden = FAMILIES['gaussian'][:4]
+
+    def extra(ex, o):
+        e2 = ['gaussian']
+        for nm in ('mu', 'sigma'):
+            v = ex.fresh(nm, REAL)
+            ex.frame.env[nm] = v
+            e2.append(v)
+        o.fields['prior'] = {'p': o.fields['prior']['p'], 'p2': e2}
+    c.concrete_self = make_self(['gamma'] + gpar + ['positive'], extra)
+
+    def pdict(ex):
+        v1, v2 = ex.fresh('v1', REAL), ex.fresh('v2', REAL)
+        ex.frame.env['v1'], ex.frame.env['v2'] = v1, v2
+        return {'p': v1, 'p2': v2}
+    c.hints['params_dict'] = dict(value=pdict)
+    c.requires(gpre[0])
+    c.requires(npre[0])
+    import re
+    g1 = re.sub(r'\bv\b', 'v1', gden)
+    n2 = re.sub(r'\bv\b', 'v2', nden)
+    c.ensures('implies(v1 > 0, finite(result) and result == %s + %s)' % (g1, n2), label='an-unflagged-parameter-may-be-negative')
+    c.ensures('implies(v1 < 0, not finite(result))', label='the-flagged-parameter-is-rejected-when-negative')
+    c.opt(verify_only=True)
+
+
 # ---------------------------------------------------------------------------------------------- get_likelihood_function (C15, C16)
 def likelihood_fn_contract(clsname, field):
     @fuc('pid_interfaces', clsname + '.get_likelihood_function', props=['C15', 'C16'], variant='uniform-prior')
